@@ -157,6 +157,17 @@ func (Tail) Generate(seed uint64, tier string) engine.Plan {
 		pr := TailProducer{Start: base + ahead, Count: 1 + r.Intn(4), Stride: r.PickInt64(1, 63, 64, 1000), Order: "asc", Seed: r.Uint64()}
 		p.Producers = append(p.Producers, pr)
 	}
+	if !big && r.Chance(1, 5) {
+		// stray acknowledgements from BELOW the initial offset ("Set(idx) below
+		// the offset" — with an initial offset of 0 these are negative indexes):
+		// ignored by a correct TailBitmap whatever the state
+		below := r.PickInt64(1, 1, 5, 63, 64, 65, 127, 128, 200, 1<<31, 1<<40)
+		pr := TailProducer{Start: p.Offset - below, Count: 1 + r.Intn(3), Stride: r.PickInt64(1, 31, 64), Order: r.PickStr("asc", "desc"), Seed: r.Uint64()}
+		if pr.Start+int64(pr.Count-1)*pr.Stride >= p.Offset {
+			pr.Count = 1
+		}
+		p.Producers = append(p.Producers, pr)
+	}
 	if r.Chance(1, 2) {
 		p.DupDen = r.PickInt(2, 3, 10)
 	}
@@ -463,6 +474,9 @@ func (Tail) Execute(pl engine.Plan, c *engine.RunCtx) *engine.Failure {
 			c.Status.SetStep(uint64(step), 1)
 			if m.id < tb.Offset {
 				st.Inc("probe.C15.set_below_offset")
+			}
+			if m.id < 0 {
+				st.Inc("probe.C15.set_negative_index")
 			}
 			if _, dup := S[m.id]; dup {
 				st.Inc("probe.C15.set_repeated")
